@@ -5,6 +5,7 @@ use std::io::{self, BufRead, Write};
 
 mod ops;
 mod shapes;
+mod heavy;
 
 pub struct Rd<'a> {
     pub t: Vec<&'a str>,
@@ -204,7 +205,10 @@ fn run_line(line: &str) -> String {
     let op = toks[0];
     let mut rd = Rd { t: toks[1..].to_vec(), i: 0 };
     let r = match ops::run(op, &mut rd) {
-        None => shapes::run(op, &mut rd),
+        None => match shapes::run(op, &mut rd) {
+            None => heavy::run(op, &mut rd),
+            x => x,
+        },
         x => x,
     };
     match r {
@@ -220,13 +224,26 @@ fn run_line(line: &str) -> String {
     }
 }
 
+thread_local! {
+    static PANIC_LOC: std::cell::RefCell<String> = std::cell::RefCell::new(String::new());
+}
+
 fn main() {
-    std::panic::set_hook(Box::new(|_| {}));
+    std::panic::set_hook(Box::new(|info| {
+        let loc = info.location().map(|l| format!("{}:{}", l.file().rsplit('/').next().unwrap_or(""), l.line())).unwrap_or_default();
+        PANIC_LOC.with(|c| *c.borrow_mut() = loc);
+    }));
     let stdin = io::stdin();
     let out = io::stdout();
     let mut out = io::BufWriter::new(out.lock());
     for line in stdin.lock().lines() {
         let line = line.unwrap();
+        #[cfg(kurbo_verif)]
+        {
+            // every op starts with a fresh work counter and a hard budget (the hook panics beyond it)
+            kurbo::verif_hooks::LIMIT.store(20_000_000, core::sync::atomic::Ordering::Relaxed);
+            kurbo::verif_hooks::take();
+        }
         let r = std::panic::catch_unwind(|| run_line(line.trim()));
         let s = match r {
             Ok(s) => s,
@@ -238,7 +255,7 @@ fn main() {
                 } else {
                     "?".to_string()
                 };
-                format!("PANIC({})", msg.replace('\n', " "))
+                format!("PANIC({} @ {})", msg.replace('\n', " "), PANIC_LOC.with(|c| c.borrow().clone()))
             }
         };
         writeln!(out, "{}", s).unwrap();
